@@ -202,9 +202,10 @@ func NativeReplay(p *sym.Program, pkgRel string, files []string, race bool) (map
 		os.WriteFile(f, []byte(strings.Replace(string(tmpl), "PKGNAME", name, 1)), 0o644)
 		repl[filepath.Join(d, "zz_verif_api.go")] = f
 	}
+	repl[filepath.Join(sym.RepoDir, "zzverif/api/api.go")] = filepath.Join(VerifDir, "harness", "_api", "shared.go.tmpl")
 	// test driver
 	var sb strings.Builder
-	fmt.Fprintf(&sb, "package %s\n\nimport (\n\t\"fmt\"\n\t\"os\"\n\t\"strings\"\n\t\"testing\"\n)\n\n", pkgName)
+	fmt.Fprintf(&sb, "package %s\n\nimport (\n\t\"fmt\"\n\t\"os\"\n\t\"strings\"\n\t\"testing\"\n\n\t\"github.com/mandykoh/prism/zzverif/api\"\n)\n\n", pkgName)
 	sb.WriteString("var verifHarnessTable = map[string]func(){\n")
 	for _, fn := range harnessFuncs(p, pkgRel) {
 		fmt.Fprintf(&sb, "\t%q: %s,\n", fn, fn)
@@ -214,31 +215,27 @@ func NativeReplay(p *sym.Program, pkgRel string, files []string, race bool) (map
 	fmt.Printf("REPLAY-BEGIN %s\n", file)
 	defer func() {
 		if r := recover(); r != nil {
-			if inv, ok := r.(VerifInvalid); ok {
+			if inv, ok := r.(api.Invalid); ok {
 				fmt.Printf("REPLAY-INVALID %s\n", inv.Why)
 			} else {
 				fmt.Printf("REPLAY-PANIC %v\n", r)
 			}
 		}
-		for _, f := range VerifFailures {
+		for _, f := range api.Failures {
 			fmt.Printf("REPLAY-FAIL %s\n", f)
 		}
-		for _, f := range VerifReached {
+		for _, f := range api.Reached {
 			fmt.Printf("REPLAY-REACH %s\n", f)
 		}
 		fmt.Printf("REPLAY-END %s\n", file)
 	}()
-	os.Setenv("VERIF_REPLAY", file)
-	verifReplay = nil
-	verifPos = 0
-	VerifFailures = nil
-	VerifReached = nil
+	api.Reset(file)
 	h := verifHarnessTable[fn]
 	if h == nil {
-		panic(VerifInvalid{"unknown harness " + fn})
+		panic(api.Invalid{"unknown harness " + fn})
 	}
 	h()
-	verifFinish()
+	api.Finish()
 }
 
 func TestVerifReplay(t *testing.T) {
